@@ -397,14 +397,32 @@ static std::vector<uint16_t> txids_of(const std::string& plain, bool& valid, std
   for (auto& b : fm.blocks) for (auto& q : b.qrs) { auto it = q.find(M::Q_TXID); if (it != q.end()) v.push_back((uint16_t)it->second.i); }
   return v;
 }
+// Descriptors opened during a case and still open at its end (e.g. the new descriptor of a rotation that the library refused: closing
+// it is the caller's business) are closed by the harness, so that thousands of cases per process do not exhaust the descriptor table.
+struct FdSweep {
+  std::set<int> before;
+  static std::set<int> open_fds() {
+    std::set<int> v;
+    DIR* d = opendir("/proc/self/fd");
+    if (!d) return v;
+    int self = dirfd(d);
+    while (dirent* e = readdir(d)) { if (e->d_name[0] == '.') continue; int fd = atoi(e->d_name); if (fd != self) v.insert(fd); }
+    closedir(d);
+    return v;
+  }
+  FdSweep() : before(open_fds()) {}
+  ~FdSweep() { for (int fd : open_fds()) if (fd > 2 && !before.count(fd)) ::close(fd); }
+};
 static void c16_run(Case& cs, const Scenario& s);
 static void c16_faults(Case& cs) {
+  FdSweep sweep;
   Scenario s = gen_scenario(cs.c, true, cs.size);
   c16_run(cs, s);
 }
 // exhaustive alignment sweep: one block whose last item is a text string of every length, closed by rotate_output(fd, false):
 // the encoder buffer is exactly full at the rotation for some length, which makes write_break() itself issue a write
 static void c16_align(Case& cs) {
+  FdSweep sweep;
   Chooser& c = cs.c;
   Scenario s;
   size_t L = (size_t)c.range(0, 2250);        // first choice = sharding dimension
